@@ -104,6 +104,13 @@ class Roles:
         if e.id in env:
             return env[e.id]
         bs = self.reach.at(loc, e.id)
+        # the iterable of a `for` is evaluated once, before the loop: what
+        # the loop body assigns does not reach it
+        for lp in getattr(self, "_pre_loops", []):
+            inner = {id(x) for x in ast.walk(lp)}
+            kept = [b for b in bs if id(b.stmt) not in inner or b.stmt is lp]
+            if kept:
+                bs = kept
         if not bs:
             # comprehension-bound name used outside our env, or a global
             if any(b.kind in ("comp", "lambda") for b in self.defs.of(e.id)):
@@ -167,7 +174,15 @@ class Roles:
                     for c in g.ifs:
                         self.side += self.expand(c, True, env2, loc2)
                 return self._of(src.elt, loc2, env2, d)
-            it = self._iter(val, stmt, env, d)
+            if kind == "for" and isinstance(stmt, ast.For):
+                pre = getattr(self, "_pre_loops", [])
+                self._pre_loops = pre + [stmt]
+                try:
+                    it = self._iter(val, stmt, env, d)
+                finally:
+                    self._pre_loops = pre
+            else:
+                it = self._iter(val, stmt, env, d)
             q = "each"
             if kind == "for":
                 q = {"break": "upto", "return": "first", "": "each"}[
